@@ -534,7 +534,21 @@ def validate_encoding(prog: Prog, view, fn, slots, m=None, points=1):
             except Exception as e:
                 prog.notes.append({"encoder-validation-skip": str(e)[:100]})
                 continue
+            from . import smt as _smt
+            if idx < len(real) and differs(real[idx], sym, tol=1e-7) and _smt.EVAL_TIES:
+                prog.notes.append({"encoder-validation-skip": f"{fn}[{idx}] comparison / floor tie at the sample point"})
+                continue
             if idx < len(real) and differs(real[idx], sym, tol=1e-7):
+                # ill-conditioned sample point (cos of 1e11, a cancellation): 16 significant digits change the value of
+                # MY term as well, so the disagreement says nothing about the encoder
+                try:
+                    low = eval_term(prog.ctx, term, inp, prec=15)     # 15 digits = 53 bits in mpmath
+                    if differs(float(low), sym, tol=1e-9) or real[idx] != real[idx] or abs(real[idx]) == float("inf"):
+                        prog.notes.append({"encoder-validation-skip": f"{fn}[{idx}] ill-conditioned at the sample point"})
+                        continue
+                except Exception:
+                    prog.notes.append({"encoder-validation-skip": f"{fn}[{idx}] not evaluable at 16 digits"})
+                    continue
                 prog.stats.errors.append(
                     f"ENCODER MISMATCH {view.backend}.{fn}[{idx}]: symbolic {float(sym)!r} vs real {real[idx]!r} at {inp} "
                     f"(program {prog.pid})")
